@@ -58,3 +58,70 @@ func refTimeout(s string) (wellFormed bool, d time.Duration, zero bool) {
 	return true, time.Duration(v) * unit, v == 0
 }
 
+
+// vValidUTF8 is the well-formedness test of RFC 3629 (what protobuf demands of a proto3 string
+// field and what unicode/utf8.ValidString computes), written out so that the symbolic executor
+// runs it over symbolic bytes without library tables.
+func vValidUTF8(s string) bool {
+	for i := 0; i < len(s); {
+		b := s[i]
+		switch {
+		case b < 0x80:
+			i++
+		case b >= 0xC2 && b <= 0xDF:
+			if i+1 >= len(s) || s[i+1] < 0x80 || s[i+1] > 0xBF {
+				return false
+			}
+			i += 2
+		case b >= 0xE0 && b <= 0xEF:
+			if i+2 >= len(s) {
+				return false
+			}
+			lo, hi := byte(0x80), byte(0xBF)
+			if b == 0xE0 {
+				lo = 0xA0
+			}
+			if b == 0xED {
+				hi = 0x9F
+			}
+			if s[i+1] < lo || s[i+1] > hi || s[i+2] < 0x80 || s[i+2] > 0xBF {
+				return false
+			}
+			i += 3
+		case b >= 0xF0 && b <= 0xF4:
+			if i+3 >= len(s) {
+				return false
+			}
+			lo, hi := byte(0x80), byte(0xBF)
+			if b == 0xF0 {
+				lo = 0x90
+			}
+			if b == 0xF4 {
+				hi = 0x8F
+			}
+			if s[i+1] < lo || s[i+1] > hi || s[i+2] < 0x80 || s[i+2] > 0xBF || s[i+3] < 0x80 || s[i+3] > 0xBF {
+				return false
+			}
+			i += 4
+		default:
+			return false
+		}
+	}
+	return true
+}
+
+// vPrintableASCII: what gRPC allows in the value of a metadata key that does not end in "-bin"
+// (written without early exits so that the symbolic executor turns it into one formula).
+func vPrintableASCII(s string) bool {
+	ok := true
+	for i := 0; i < len(s); i++ {
+		c := s[i]
+		if c < 0x20 {
+			ok = false
+		}
+		if c > 0x7E {
+			ok = false
+		}
+	}
+	return ok
+}
